@@ -5681,6 +5681,23 @@ impl PeerConnectionInner {
         // Close SCTP transport before closing DTLS/ICE to stop retransmission timers
         if let Some(sctp) = self.sctp_transport.lock().take() {
             sctp.close();
+        } else {
+            // No association was ever started (closed before DTLS completed), so
+            // there is no SCTP teardown that would end the data channels: end them
+            // here, otherwise a recv() pending on one of them never returns.
+            let channels = self.data_channels.lock();
+            for weak_dc in channels.iter() {
+                if let Some(dc) = weak_dc.upgrade() {
+                    let old_state = dc.state.swap(
+                        crate::transports::sctp::DataChannelState::Closed as usize,
+                        Ordering::SeqCst,
+                    );
+                    if old_state != crate::transports::sctp::DataChannelState::Closed as usize {
+                        dc.send_event(crate::transports::sctp::DataChannelEvent::Close);
+                        dc.close_channel();
+                    }
+                }
+            }
         }
 
         if let Some(dtls) = self.dtls_transport.lock().as_ref() {
